@@ -5,6 +5,10 @@
 -/
 import Driver.Base
 import Driver.Ops
+import Driver.P_Pregen
+import Driver.P_Reorder
+import Driver.P_Reach
+import Driver.P_Build
 import Driver.P_Errors
 import Driver.P_Io
 import Driver.P_Image
@@ -17,9 +21,14 @@ namespace Meddly
 namespace Plugins
 open Funcs
 
-def specChain : List Ops.SpecFn := [PErrors.spec, P_Io.spec, P_Image.spec, PArith.spec, PCopy.spec, PIndex.spec, PIter.spec, Ops.specSet, Ops.specNumBasic]
+def specChain : List Ops.SpecFn := [PPregen.spec, PReach.spec, PErrors.spec, P_Io.spec, P_Image.spec, PArith.spec, PCopy.spec, PIndex.spec, PIter.spec, Ops.specSet, Ops.specNumBasic]
 
-def stepChain : List (St → Nat → List String → Option St) := [PErrors.step, P_Io.step, P_Image.step, PArith.step, PIndex.step, PIter.step]
+/-- record handlers, each restricted to the harness families it belongs to (several families use a
+    record named `probe` with different layouts); an empty family list means "any family" -/
+def stepChain : List (List String × (St → Nat → List String → Option St)) :=
+  [(["pregen"], PPregen.step), (["reorder"], PReorder.step), (["reach"], PReach.step), (["build"], PBuild.step),
+   (["errors"], PErrors.step), (["io"], P_Io.step), (["image"], P_Image.step), ([], PArith.step),
+   (["index"], PIndex.step), (["iter", "index"], PIter.step)]
 
 def spec (dom : Array Nat) (kindOf : Ops.KindOf) (op : String) (args : List (String × Spec.Table))
     (scalars : List (String × String)) : Except String Spec.Table :=
@@ -28,7 +37,7 @@ def spec (dom : Array Nat) (kindOf : Ops.KindOf) (op : String) (args : List (Str
   | none => .error s!"SPEC-UNKNOWN {op}"
 
 def step (s : St) (ln : Nat) (toks : List String) : Option St :=
-  stepChain.findSome? (fun f => f s ln toks)
+  stepChain.findSome? (fun (fams, f) => if fams.isEmpty || fams.contains s.family then f s ln toks else none)
 
 end Plugins
 end Meddly
